@@ -103,7 +103,7 @@ CONFIG.required_theorems = [
     "alphabet_decodes", "accepted_is_wellformed", "crc_detects_burst32", "corrupted_body_rejected",
     "corrupted_crc_field_rejected", "corrupted_straddle_1_2_rejected", "corrupted_straddle_2_1_rejected",
     "straddle_accepts_only_if", "replaced_symbol_changes_five_bits", "window2_same_or_rejected",
-    "single_symbol_substitution_rejected",
+    "single_symbol_substitution_rejected", "window3_same_or_rejected", "adjacent_transposition_rejected",
 ]
 CONFIG.translators = [tables.gen_crc, tables.gen_base32, tables.gen_hashalgs]
 CONFIG.engines = [Engine("c17", ["exec_c17.c"], "drv_c17", gen, trivial=trivial)]
@@ -133,9 +133,9 @@ CONFIG.level_text = ("Kernel-checked, with the CRC table / alphabet / digit tabl
                      "position whose character contributes five bits and every replacement that contributes five bits, the changed string "
                      "is refused or KSI_base32Decode yields the identical octets (only padding bits / a position behind '=' changed) -- "
                      "from replaced_symbol_changes_five_bits (string -> one five-bit window at a multiple of five), window_bytes (five bits "
-                     "lie in <=2 consecutive octets or the dropped tail) and window2_same_or_rejected (body / field / straddling). PARTIAL: "
-                     "adjacent transpositions (a ten-bit window, <=3 octets) are proved at the octet level only (corrupted_body_rejected, "
-                     "corrupted_straddle_2_1_rejected), not from the string; they are covered by the exhaustive per-string run.")
+                     "lie in <=2 consecutive octets or the dropped tail) and window2_same_or_rejected (body / field / straddling). EVERY SWAP OF TWO ADJACENT SYMBOLS likewise (adjacent_transposition_rejected: decodeBits_swap -> one ten-bit window, "
+                     "window_bytes10 -> <=3 consecutive octets, window3_same_or_rejected -> body / field / 1+1, 1+2, 2+1 octets across the "
+                     "boundary). Neighbours across a dash or ignored digits are covered (parameter m).")
 CONFIG.level_note = ("Trusted: Lean kernel + standard axioms; translator/tables.py (regex over the preprocessed crc32.c/base32.c, refuses other "
                      "shapes) and translator/dump.c (hash lengths through the library API); bit-string model tied to addBits/readNextBits by "
                      "the differential run.")
